@@ -4,6 +4,7 @@ This service provides comprehensive color validation, lookup, and RTF generation
 capabilities using the full 657-color table from r2rtf.
 """
 
+import contextvars
 from collections.abc import Mapping, Sequence
 from typing import Any
 
@@ -12,6 +13,12 @@ from rtflite.dictionary.color_table import (
     name_to_rgb,
     name_to_rtf,
     name_to_type,
+)
+
+
+# Per-thread / per-task colors of the document currently being encoded
+_DOCUMENT_COLORS: contextvars.ContextVar[Sequence[str] | None] = contextvars.ContextVar(
+    "rtflite_document_colors", default=None
 )
 
 
@@ -30,9 +37,15 @@ class ColorService:
         self._name_to_type = name_to_type
         self._name_to_rgb = name_to_rgb
         self._name_to_rtf = name_to_rtf
-        self._current_document_colors = (
-            None  # Context for current document being encoded
-        )
+
+    @property
+    def _current_document_colors(self) -> Sequence[str] | None:
+        """Colors of the document being encoded in the current thread/task."""
+        return _DOCUMENT_COLORS.get()
+
+    @_current_document_colors.setter
+    def _current_document_colors(self, value: Sequence[str] | None) -> None:
+        _DOCUMENT_COLORS.set(value)
 
     def validate_color(self, color: str) -> bool:
         """Validate if a color name exists in the color table.
